@@ -6,7 +6,7 @@ on_hci_disconnection_complete_event (queue wiring), bumble.utils.FlowControlAsyn
 """
 import collections
 
-from vf.e1 import harness, concrete as C
+from vf.e1 import harness, untraced, concrete as C
 from vf import flags as _flags
 from vf import detloop
 
@@ -352,6 +352,76 @@ def pipe_order(threshold: int, o1: int, o2: int, o3: int, o4: int, o5: int, o6: 
                 loop.run_ready()
         pipe.stop()
         return got == written and pipe.queued_bytes == 0 and not pipe.queue
+
+
+# ------------------------------------------------------------------------------------------
+# the credit pools the real Host.reset builds from what the controller reports
+@harness(pre=['1 <= n_acl <= 3 and 0 <= le_len <= 1 and 0 <= n_le <= 2 and 0 <= kc <= 3 and 0 <= kl <= 3 and 0 <= first <= 1'], family='host-wiring', twin=True, timeout=(150, 400),
+         kernels=('bumble.host.Host.reset', 'bumble.host.Host.send_acl_sdu', 'bumble.host.Host.get_data_packet_queue', 'bumble.host.Host.on_hci_number_of_completed_packets_event') + K_QUEUE,
+         bounds='the real Host.reset against the real virtual Controller reporting 1..3 BR/EDR ACL buffers and an LE buffer size of 0 or 27 with 0..2 LE buffers (0 in either = one pool shared by both transports); then 0..3 one-fragment PDUs on a BR/EDR link and 0..3 on an LE link (either first): packets in flight never exceed the pool they draw from (shared: both links together <= the BR/EDR count), nothing waits while its pool has a free buffer, and each completion lets exactly one waiting packet of that pool go, in per-link order')
+def host_reset_credit_pools(n_acl: int, le_len: int, n_le: int, kc: int, kl: int, first: int) -> bool:
+    from bumble import controller as ctl
+    from bumble.transport.common import AsyncPipeSink
+    n_acl, le_len, n_le, kc, kl, first = C(n_acl, 1, 3), C(le_len, 0, 1), C(n_le, 0, 2), C(kc, 0, 3), C(kl, 0, 3), C(first, 0, 1)
+    with untraced():
+        with detloop.running() as loop:
+            c = ctl.Controller('C')
+            c.total_num_acl_data_packets = n_acl
+            c.le_acl_data_packet_length = 27 * le_len
+            c.total_num_le_acl_data_packets = n_le
+            h = Host(c, AsyncPipeSink(c))
+            t = loop.create_task(h.reset())
+            for _ in range(2000):
+                loop.run_ready()
+                if t.done() or (not loop.ready and not loop.advance()):
+                    break
+            if not t.done() or t.exception() is not None:
+                return False
+            shared = le_len == 0 or n_le == 0
+            sent = []
+
+            class Sink:
+                def on_packet(self, data):
+                    sent.append(bytes(data))
+            h.set_packet_sink(Sink())
+            CL, LE = 1, 0x40
+            h.on_packet(bytes(hci.HCI_Connection_Complete_Event(status=0, connection_handle=CL, bd_addr=hci.Address('C0:C0:C0:C0:C0:C1', hci.Address.PUBLIC_DEVICE_ADDRESS),
+                                                                link_type=hci.HCI_Connection_Complete_Event.LinkType.ACL, encryption_enabled=0)))
+            h.on_packet(bytes(hci.HCI_LE_Connection_Complete_Event(status=0, connection_handle=LE, role=hci.Role.CENTRAL, peer_address_type=hci.AddressType.PUBLIC_DEVICE,
+                                                                   peer_address=hci.Address('E0:E0:E0:E0:E0:E1'), connection_interval=24, peripheral_latency=0, supervision_timeout=100,
+                                                                   central_clock_accuracy=0)))
+            loop.run_ready()
+            if CL not in h.connections or LE not in h.connections:
+                return False
+            want = {CL: [bytes([0xC0 + i]) for i in range(kc)], LE: [bytes([0xE0 + i]) for i in range(kl)]}
+            for handle in ((CL, LE) if first == 0 else (LE, CL)):
+                for payload in want[handle]:
+                    h.send_l2cap_pdu(handle, 0x40, payload)
+            done = {CL: 0, LE: 0}
+
+            def out(handle):
+                return [d[9:] for d in sent if d[0] == 2 and (d[1] | (d[2] << 8)) & 0x0FFF == handle]
+
+            def pools_ok():
+                fl = {x: len(out(x)) - done[x] for x in (CL, LE)}
+                wait = {x: len(want[x]) - len(out(x)) for x in (CL, LE)}
+                if any(out(x) != want[x][:len(out(x))] for x in (CL, LE)):
+                    return False
+                if shared:
+                    tot = fl[CL] + fl[LE]
+                    return tot <= n_acl and not (tot < n_acl and (wait[CL] or wait[LE]))
+                return fl[CL] <= n_acl and fl[LE] <= n_le and not (fl[CL] < n_acl and wait[CL]) and not (fl[LE] < n_le and wait[LE])
+            if not pools_ok():
+                return False
+            for _ in range(kc + kl):
+                for x in (CL, LE):
+                    if len(out(x)) - done[x] > 0:
+                        done[x] += 1
+                        h.on_packet(bytes(hci.HCI_Number_Of_Completed_Packets_Event(connection_handles=[x], num_completed_packets=[1])))
+                        loop.run_ready()
+                        if not pools_ok():
+                            return False
+            return out(CL) == want[CL] and out(LE) == want[LE]
 
 
 _flags.int_format_placeholder = True     # log f-strings with symbolic ints are not the subject here (see vf/flags.py)
